@@ -75,6 +75,11 @@ def generate(rng, tier="quick"):
                 op["gc_at"] = rng.choice([3, 10, 25, 60, 120, 250, 500])
             if kind in ("take_close", "take_drop", "take_cycle", "consumer_raises"):
                 op["k"] = rng.choice([0, 1, 1, 1, 2, 2, 3, 5])
+            if kind == "is_valid" and rng.random() < 0.2:
+                if rng.random() < 0.5:
+                    op["elsewhere"] = "whole"            # the whole call runs on another thread (sequentially)
+                else:
+                    op["sub"] = rng.randrange(8)         # is_valid(instance, <a subschema object of the root>)
             if kind in ("take_close", "take_drop") and rng.random() < 0.15:
                 # the iterator is handed to another thread (sequentially): started there, or finished there
                 op["elsewhere"] = rng.choice(["start", "finish"])
